@@ -16,8 +16,14 @@ def main():
         if a.startswith('--only='): only = BASE_VC + a.split('=')[1].split(',')
         if a.startswith('--specs='): specs = BASE_SPEC + a.split('=')[1].split(',')
     if only is not None and specs is None: specs = BASE_SPEC
+    patches = [a.split('=')[1] for a in sys.argv[1:] if a.startswith('--patch=')]
+    def patch_fn(src):
+        import subprocess
+        for pf in patches:
+            r = subprocess.run(['patch', '-p1', '-d', os.path.dirname(src), '-i', os.path.abspath(pf)], stdout=subprocess.PIPE, stderr=subprocess.STDOUT, text=True)
+            if r.returncode: raise SystemExit('patch failed: ' + r.stdout)
     engine.ensure_deps()
-    scratch, index = engine.snapshot_and_annotate(only=only, specs=specs)
+    scratch, index = engine.snapshot_and_annotate(only=only, specs=specs, patch_fn=patch_fn if patches else None)
     try:
         for l in index['lost']:
             print('LOST', l)
